@@ -113,8 +113,11 @@ func genC09(t *rapid.T) *C09Case {
 				stmt = &Stmt{K: "while", While: &While{Cond: cond, Body: &Block{Stmts: []*Stmt{sBreak()}}}}
 			}
 			sc.Body.Stmts = append(sc.Body.Stmts, stmt)
-		case 0: // inline argument
+		case 0: // inline argument (sometimes two in one command)
 			cmd := &Cmd{Name: fmt.Sprintf("c%d", i), Args: []*Arg{{Text: c09TextVal(t)}}}
+			if rapid.IntRange(0, 3).Draw(t, "twotexts") == 0 {
+				cmd.Args = append(cmd.Args, &Arg{Toks: []string{"X"}}, &Arg{Text: c09TextVal(t)})
+			}
 			sc.Body.Stmts = append(sc.Body.Stmts, sCmd(cmd))
 		case 1: // text statement with poryswitch
 			ps := &PSText{Var: "V"}
